@@ -56,6 +56,9 @@ Definition entry_is2 (id : nat) (tr : bool) (c : list nat) (k : nat * nat) (e : 
 Definition seenb2 (id : nat) (tr : bool) (c : list nat) (k : nat * nat) (S : store2) : bool :=
   existsb (entry_is2 id tr c k) (seen2 S).
 
+(* Entry-time resets of /repo 23d12cd (flags and `_conclusion_` reset when a selector's `_evaluate__` is entered): not written
+   out, for the reason given in RuleEval.v -- on entry REV and DYN are already clear ([Pre], RuleEval2MultiProofs.v
+   [inner_all]) and LEV is written before it is read. *)
 Section Eval2.
   Variable selof : nat -> nat.
   Variables (Cs : list celem) (Bs : list belem).
